@@ -6,6 +6,8 @@ NoUploadBeforeOwnMerged and BucketMonotone) and Cleaner.tla (what a cleaning run
 Binding (R): the real sync loop is stepped through the yield hooks, crashed by unwinding the goroutine at the
 yield point and restarted on the same or an emptied LMDB; every stored blob is decoded and compared with the
 previous newest one; the guard "own old snapshot merged before anything is stored" is evaluated on the real run.
+The start-up decisions are also explored with another instance's snapshot lying in the bucket (initial upload
+skipped, waiting set, readiness flags of the start tracker compared after every step).
 """
 import loopx
 from props import c12
@@ -13,6 +15,8 @@ from props import c12
 
 def run(c):
     loopx.run_suite(c, 'C05', with_window=False)
+    # start-up with another instance's snapshot already in the bucket (hasSnapshots, waitingForInstances, start tracker)
+    loopx.run_extra(c, 'C05', 'ready')
     # cleaners: what a cleaning run may delete (Cleaner.tla), replayed on the real cleaner.Worker
     c12.run_cfg(c, 'Cleaner.cfg', 1, 2, 20000 if c.tier == 'thorough' else 2000, 16)
     c.assumptions += ['application writes are monotone per key per instance', 'versions that arrived from another instance stay available in that instance\'s snapshot',
